@@ -14,6 +14,7 @@ PROPS = {
     "C13": {"rule": "TODO", "level_text": "TODO", "level_note": "TODO"},
     "C18": {"rule": "TODO", "level_text": "TODO", "level_note": "TODO"},
     "C11": {"rule": "TODO", "level_text": "TODO", "level_note": "TODO"},
+    "C10": {"rule": "TODO", "level_text": "TODO", "level_note": "TODO"},
     "C01": {
         "rule": "TODO",
         "level_text": "TODO", "level_note": "TODO",
